@@ -70,6 +70,9 @@
 #include "PrematureLaunchTaskContext.hpp"
 #include "RandomGenerator.hpp"
 #include "Scheduler.hpp"
+#include "FlushContinuousPhotonBuffersTaskContext.hpp"
+#include "IsotropicContinuousPhotonSource.hpp"
+#include "SourceContinuousPhotonTaskContext.hpp"
 #include "SourceDiscretePhotonTaskContext.hpp"
 #include "Task.hpp"
 #include "TaskContext.hpp"
@@ -107,12 +110,14 @@ bool g_in_case = false;
 char g_text[1 << 16];
 size_t g_text_len = 0;
 unsigned long long g_hash = 0;
+char g_prop[96] = "photon_loop";
 
 void render_case(const VCase &c) {
   const std::string t = c.to_text();
   g_text_len = std::min(t.size(), sizeof g_text - 1);
   memcpy(g_text, t.data(), g_text_len);
   g_hash = c.hash();
+  snprintf(g_prop, sizeof g_prop, "%s", c.prop.c_str());
 }
 size_t put_s(char *b, size_t pos, size_t cap, const char *t) {
   while (*t && pos + 1 < cap)
@@ -147,7 +152,9 @@ void crash_handler(int sig) {
   }
   const char *fd = getenv("VERIF_FAILDIR");
   size_t m = put_s(path, 0, sizeof path, fd ? fd : ".");
-  m = put_s(path, m, sizeof path, "/C01-photon_loop-crash-");
+  m = put_s(path, m, sizeof path, "/C01-");
+  m = put_s(path, m, sizeof path, g_prop);
+  m = put_s(path, m, sizeof path, "-crash-");
   m = put_hex16(path, m, sizeof path, g_hash);
   m = put_s(path, m, sizeof path, ".case");
   path[m] = 0;
@@ -161,13 +168,18 @@ void crash_handler(int sig) {
     (void)!write(f, buf, n);
     close(f);
   }
-  size_t n = put_s(buf, 0, sizeof buf, "FAILCASE photon_loop ");
+  size_t n = put_s(buf, 0, sizeof buf, "FAILCASE ");
+  n = put_s(buf, n, sizeof buf, g_prop);
+  n = put_s(buf, n, sizeof buf, " ");
   n = put_s(buf, n, sizeof buf, path);
   n = put_s(buf, n, sizeof buf, "\n");
   (void)!write(1, buf, n);
   if (const char *out = getenv("VERIF_OUT")) {
     n = put_s(buf, 0, sizeof buf,
-              "{\"property_id\":\"C01\",\"props\":{\"photon_loop\":{"
+              "{\"property_id\":\"C01\",\"props\":{\"");
+    n = put_s(buf, n, sizeof buf, g_prop);
+    n = put_s(buf, n, sizeof buf,
+              "\":{"
               "\"evaluations\":1,\"nontrivial\":0,\"distinct_nontrivial\":0,"
               "\"known_excluded\":0,\"wall_s\":0,\"failed\":true,"
               "\"fail_msg\":\"fatal ");
@@ -303,6 +315,20 @@ struct Sim {
   int nth = 2, niter = 1, copy_level = 0, diffuse = 0, qk = 0;
   size_t _number_of_photons = 0; // discrete + injected (termination test)
   size_t n_discrete = 0, n_injected = 0;
+  // continuous (external) source: 0 none, 1 continuous only, 2 discrete +
+  // continuous; names as in TaskBasedIonizationSimulation::run
+  int cont_mode = 0;
+  double lum_ratio = 1.;
+  std::unique_ptr< IsotropicContinuousPhotonSource > _continuous_photon_source;
+  std::unique_ptr< MonochromaticPhotonSourceSpectrum >
+      _continuous_photon_source_spectrum;
+  std::vector< ThreadLock > continuous_source_lock;
+  std::vector< std::vector< PhotonBuffer > > continuous_buffers;
+  uint_fast32_t number_of_discrete_photons = 0;
+  uint_fast32_t number_of_continuous_photons = 0;
+  uint_fast32_t fixed_number_of_continuous_photons = 0;
+  double discrete_photon_weight = 1., continuous_photon_weight = 1.;
+  uint64_t flush_executed = 0, n_cont_tasks = 0, n_flush_total = 0;
   std::vector< int64_t > inj_cell, inj_frac, inj_dir;
   std::vector< double > inj_tau;
   std::vector< int > stride;
@@ -382,7 +408,34 @@ struct Sim {
     diffuse = (int)c.i("diffuse");
     qk = (int)c.i("qk");
     sched_seed = (uint64_t)c.i("sched_seed");
-    n_discrete = (size_t)c.i("nphot");
+    const size_t nphot = (size_t)c.i("nphot");
+    cont_mode = c.has_i("cont_mode") ? (int)c.i("cont_mode") : 0;
+    lum_ratio = c.has_d("lum_ratio") ? c.d("lum_ratio") : 1.;
+    // REPLICA of the split of the packets over the source kinds
+    {
+      const size_t _number_of_photons = nphot;
+      number_of_discrete_photons = 0;
+      if (cont_mode != 1) {
+        number_of_discrete_photons = _number_of_photons;
+      }
+      number_of_continuous_photons = 0;
+      if (cont_mode != 0) {
+        number_of_continuous_photons = _number_of_photons;
+      }
+      discrete_photon_weight = 1.;
+      continuous_photon_weight = 1.;
+      if (number_of_discrete_photons > 0 && number_of_continuous_photons > 0) {
+        number_of_discrete_photons >>= 1;
+        number_of_continuous_photons =
+            _number_of_photons - number_of_discrete_photons;
+        const double luminosity_ratio = lum_ratio;
+        discrete_photon_weight = 2. / (luminosity_ratio + 1.);
+        continuous_photon_weight =
+            2. * luminosity_ratio / (luminosity_ratio + 1.);
+      }
+      fixed_number_of_continuous_photons = number_of_continuous_photons;
+    }
+    n_discrete = number_of_discrete_photons;
     if (c.has_i("inj_cell")) {
       inj_cell = c.iv("inj_cell");
       inj_frac = c.iv("inj_frac");
@@ -390,7 +443,7 @@ struct Sim {
       inj_tau = c.dv("inj_tau");
     }
     n_injected = inj_tau.size();
-    _number_of_photons = n_discrete + n_injected;
+    _number_of_photons = nphot + n_injected;
     for (auto s : c.iv("stride"))
       stride.push_back((int)std::max<int64_t>(1, s));
     stride.resize(nth, 1);
@@ -411,8 +464,14 @@ struct Sim {
       TableDensity df(g, c.dv("dens"));
       _grid_creator->initialize(df);
     }
-    _photon_source_distribution.reset(
-        new TableSources(c.dv("spos"), c.dv("sweight")));
+    if (cont_mode != 1)
+      _photon_source_distribution.reset(
+          new TableSources(c.dv("spos"), c.dv("sweight")));
+    if (cont_mode != 0) {
+      _continuous_photon_source.reset(new IsotropicContinuousPhotonSource(box));
+      _continuous_photon_source_spectrum.reset(
+          new MonochromaticPhotonSourceSpectrum(NU_SOURCE));
+    }
     _cross_sections.reset(new FixedValueCrossSections(
         SIGMA_H, 0., 0., 0., 0., 0., 0., 0., 0., 0., 0., 0., 0., 0.));
     _photon_source_spectrum.reset(
@@ -437,8 +496,23 @@ struct Sim {
 
     copy_levels();
 
-    photon_source.reset(new DistributedPhotonSource< DensitySubGrid >(
-        n_discrete, *_photon_source_distribution, *_grid_creator));
+    if (_photon_source_distribution != nullptr) {
+      photon_source.reset(new DistributedPhotonSource< DensitySubGrid >(
+          number_of_discrete_photons, *_photon_source_distribution,
+          *_grid_creator));
+    }
+    {
+      const uint_fast32_t number_of_continuous_blocks = _queues.size();
+      continuous_source_lock =
+          std::vector< ThreadLock >(number_of_continuous_blocks);
+      continuous_buffers.resize(number_of_continuous_blocks);
+      if (_continuous_photon_source != nullptr) {
+        for (uint_fast32_t i = 0; i < number_of_continuous_blocks; ++i) {
+          continuous_buffers[i].resize(
+              _grid_creator->number_of_original_subgrids());
+        }
+      }
+    }
 
     // "subgrid initialisation" of the simulation: which thread grabs which
     // subgrid is schedule dependent there; here it is part of the case
@@ -467,7 +541,7 @@ struct Sim {
 
     // set the copy level of all subgrids containing a source to the given
     // parameter value (for now)
-    {
+    if (_photon_source_distribution) {
       const photonsourcenumber_t number_of_sources =
           _photon_source_distribution->get_number_of_sources();
       for (photonsourcenumber_t isource = 0; isource < number_of_sources;
@@ -510,7 +584,9 @@ struct Sim {
   // REPLICA of the start of an iteration up to "photon source tasks"
   void start_iteration() {
     // reset the photon source information
-    photon_source->reset();
+    if (photon_source) {
+      photon_source->reset();
+    }
 
     // reset mean intensity counters
     for (size_t this_igrid = 0;
@@ -534,12 +610,11 @@ struct Sim {
     }
   }
 
-  // REPLICA of "photon source tasks" (discrete sources only)
+  // REPLICA of "photon source tasks"
   void create_source_tasks() {
-    const size_t number_of_discrete_photons = n_discrete;
     number_of_photons_done = 0;
     uint64_t rounds = 0;
-    {
+    if (photon_source) {
       while (number_of_photons_done < number_of_discrete_photons) {
         for (size_t isrc = 0; isrc < photon_source->get_number_of_sources();
              ++isrc) {
@@ -566,10 +641,47 @@ struct Sim {
         }
       }
     }
+    if (_continuous_photon_source) {
+      const uint_fast32_t number_of_continuous_blocks = _queues.size();
+      number_of_continuous_photons = fixed_number_of_continuous_photons;
+      const uint_fast32_t batch_size = PHOTONBUFFER_SIZE;
+      uint_fast32_t block_index = 0;
+      const uint_fast32_t num_batches =
+          number_of_continuous_photons / batch_size;
+      for (uint_fast32_t ibatch = 0; ibatch < num_batches; ++ibatch) {
+        const size_t new_task = _tasks->get_free_element();
+        (*_tasks)[new_task].set_type(TASKTYPE_SOURCE_CONTINUOUS_PHOTON);
+        (*_tasks)[new_task].set_buffer(batch_size);
+        (*_tasks)[new_task].set_subgrid(block_index %
+                                        number_of_continuous_blocks);
+        (*_tasks)[new_task].set_dependency(
+            &continuous_source_lock[block_index % number_of_continuous_blocks]);
+        ++block_index;
+        _shared_queue->add_task(new_task);
+        number_of_photons_done += batch_size;
+        ++n_cont_tasks; // VERIF
+      }
+      const uint_fast32_t num_last_batch =
+          number_of_continuous_photons % batch_size;
+      if (num_last_batch > 0) {
+        const size_t new_task = _tasks->get_free_element();
+        (*_tasks)[new_task].set_type(TASKTYPE_SOURCE_CONTINUOUS_PHOTON);
+        (*_tasks)[new_task].set_buffer(num_last_batch);
+        (*_tasks)[new_task].set_subgrid(block_index %
+                                        number_of_continuous_blocks);
+        (*_tasks)[new_task].set_dependency(
+            &continuous_source_lock[block_index % number_of_continuous_blocks]);
+        ++block_index;
+        _shared_queue->add_task(new_task);
+        number_of_photons_done += num_last_batch;
+        ++n_cont_tasks; // VERIF
+      }
+      number_of_continuous_photons = fixed_number_of_continuous_photons;
+    }
     // (the original asserts this; assertions are off in production)
-    if (number_of_photons_done != n_discrete)
+    if (number_of_photons_done != _number_of_photons - n_injected)
       note(fmt("packets handed to source tasks %zu =/= packets requested %zu",
-               number_of_photons_done, n_discrete));
+               number_of_photons_done, _number_of_photons - n_injected));
   }
 
   // VERIF: packets with degenerate directions (along an axis, a face diagonal
@@ -638,11 +750,26 @@ struct Sim {
     num_photon_done.set(0);
     statistics = new PhotonPacketStatistics(5);
 
-    task_contexts[TASKTYPE_SOURCE_DISCRETE_PHOTON] =
-        new SourceDiscretePhotonTaskContext< DensitySubGrid >(
-            *photon_source, *_buffers, _random_generators, 1.,
-            *_photon_source_spectrum, _abundances, *_cross_sections,
-            *_grid_creator, *_tasks);
+    if (photon_source) {
+      task_contexts[TASKTYPE_SOURCE_DISCRETE_PHOTON] =
+          new SourceDiscretePhotonTaskContext< DensitySubGrid >(
+              *photon_source, *_buffers, _random_generators,
+              discrete_photon_weight, *_photon_source_spectrum, _abundances,
+              *_cross_sections, *_grid_creator, *_tasks);
+    }
+
+    if (_continuous_photon_source) {
+      task_contexts[TASKTYPE_SOURCE_CONTINUOUS_PHOTON] =
+          new SourceContinuousPhotonTaskContext(
+              *_continuous_photon_source, *_buffers, _random_generators,
+              continuous_photon_weight, *_continuous_photon_source_spectrum,
+              _abundances, *_cross_sections, *_grid_creator, *_tasks,
+              continuous_buffers, _queues, *_shared_queue,
+              number_of_continuous_photons, continuous_source_lock);
+      task_contexts[TASKTYPE_FLUSH_CONTINUOUS_PHOTON_BUFFERS] =
+          new FlushContinuousPhotonBuffersTaskContext(
+              *_buffers, *_grid_creator, *_tasks, continuous_buffers, _queues);
+    }
 
     if (_reemission_handler) {
       task_contexts[TASKTYPE_PHOTON_REEMIT] =
@@ -691,6 +818,8 @@ struct Sim {
       throw Stop();
     }
     const int type = (int)task.get_type();
+    if (type == TASKTYPE_FLUSH_CONTINUOUS_PHOTON_BUFFERS)
+      ++flush_executed;
     if (type != TASKTYPE_PHOTON_TRAVERSAL && type != TASKTYPE_PHOTON_REEMIT)
       return;
     const size_t b = task.get_buffer();
@@ -824,6 +953,8 @@ struct Sim {
            shared_entries = 0, slots = 0;
     uint64_t launched = 0, absorbed = 0, escaped = 0, reemitted = 0,
              not_reemitted = 0, done = 0;
+    uint64_t cont_packets = 0; // packets waiting in the continuous buffers
+    size_t cont_nonempty = 0;
   };
   State state() {
     State s;
@@ -844,20 +975,28 @@ struct Sim {
     s.reemitted = cmi_verif_counters()[CMI_VERIF_REEMITTED].load();
     s.not_reemitted = cmi_verif_counters()[CMI_VERIF_NOT_REEMITTED].load();
     s.done = num_photon_done.value();
+    for (auto &blk : continuous_buffers)
+      for (auto &b : blk)
+        if (b.size() > 0) {
+          s.cont_packets += b.size();
+          ++s.cont_nonempty;
+        }
     return s;
   }
   static std::string show(const State &s, size_t requested) {
     return fmt("requested %zu, launched %llu, absorbed %llu + escaped %llu + "
                "not re-emitted %llu = %llu terminated (re-emitted %llu), "
                "num_photon_done %llu; active buffers %zu, active tasks %zu, "
-               "queue entries %zu + %zu shared, subgrid output slots %zu",
+               "queue entries %zu + %zu shared, subgrid output slots %zu, "
+               "%llu packets in %zu continuous source buffers",
                requested, (unsigned long long)s.launched,
                (unsigned long long)s.absorbed, (unsigned long long)s.escaped,
                (unsigned long long)s.not_reemitted,
                (unsigned long long)(s.absorbed + s.escaped + s.not_reemitted),
                (unsigned long long)s.reemitted, (unsigned long long)s.done,
                s.active_buffers, s.active_tasks, s.queue_entries,
-               s.shared_entries, s.slots);
+               s.shared_entries, s.slots, (unsigned long long)s.cont_packets,
+               s.cont_nonempty);
   }
 
   // (iv) / before an iteration
@@ -865,6 +1004,9 @@ struct Sim {
     in_check = true;
     const State s = state();
     in_check = false;
+    if (s.cont_packets != 0)
+      note(fmt("%s: %llu packets wait in continuous source buffers", when,
+               (unsigned long long)s.cont_packets));
     if (s.active_buffers != 0 || s.active_tasks != 0 || s.queue_entries != 0 ||
         s.shared_entries != 0 || s.slots != 0)
       note(fmt("%s: not clean: %zu active buffers, %zu active tasks, %zu + %zu "
@@ -896,6 +1038,22 @@ struct Sim {
     if (_reemission_handler != nullptr && s.absorbed != 0)
       return note("with a diffuse field every absorbed packet must go through "
                   "the re-emission decision" + all);
+    if (s.cont_packets != 0)
+      return note(fmt("%llu packets are still waiting in %zu continuous source "
+                      "buffer(s) after the iteration",
+                      (unsigned long long)s.cont_packets, s.cont_nonempty) +
+                  all);
+    {
+      // exactly one flush task per source copy, once all continuous source
+      // tasks have run
+      const uint64_t expect =
+          fixed_number_of_continuous_photons > 0 ? (uint64_t)_queues.size() : 0;
+      if (flush_executed != expect)
+        return note(fmt("%llu flush tasks were executed, %llu (one per source "
+                        "copy) must be created and run",
+                        (unsigned long long)flush_executed,
+                        (unsigned long long)expect) + all);
+    }
     if (s.active_buffers != 0)
       return note(fmt("%zu packet buffer(s) still active after the iteration",
                       s.active_buffers) + all);
@@ -942,8 +1100,11 @@ struct Sim {
     for (size_t k = 0; k < nact; ++k) {
       Task &task = *active[k];
       const int type = (int)task.get_type();
-      if (type == TASKTYPE_SOURCE_DISCRETE_PHOTON) {
+      if (type == TASKTYPE_SOURCE_DISCRETE_PHOTON ||
+          type == TASKTYPE_SOURCE_CONTINUOUS_PHOTON) {
         pending += task.get_buffer();
+      } else if (type == TASKTYPE_FLUSH_CONTINUOUS_PHOTON_BUFFERS) {
+        // refers to a source copy, not to a buffer
       } else if (type == TASKTYPE_PHOTON_TRAVERSAL ||
                  type == TASKTYPE_PHOTON_REEMIT) {
         const size_t b = task.get_buffer();
@@ -992,9 +1153,11 @@ struct Sim {
       return note(fmt("launched %llu + waiting in source tasks %llu =/= "
                       "requested %zu", (unsigned long long)s.launched,
                       (unsigned long long)pending, N) + all);
-    if (in_ref + term != s.launched)
-      return note(fmt("packets in buffers %llu + terminated %llu =/= launched "
-                      "%llu", (unsigned long long)in_ref,
+    if (in_ref + s.cont_packets + term != s.launched)
+      return note(fmt("packets in buffers %llu (+ %llu in continuous source "
+                      "buffers) + terminated %llu =/= launched %llu",
+                      (unsigned long long)in_ref,
+                      (unsigned long long)s.cont_packets,
                       (unsigned long long)term,
                       (unsigned long long)s.launched) + all);
     if (s.done != term)
@@ -1208,9 +1371,12 @@ struct Sim {
         for (size_t k = 0; k < n_injected; ++k)
           expected_tasks +=
               chain * (2. + hops * (periodic ? 1. + (3. + inj_tau[k]) / tau_box : 1.));
+        expected_tasks += (double)(_queues.size() * (2 + _grid_creator->number_of_original_subgrids()));
         task_budget = (uint64_t)(50. * expected_tasks);
         stall_budget = 50000000;
         tasks_iter = 0;
+        n_flush_total += flush_executed;
+        flush_executed = 0;
         last_task_ops = 0;
         stalled = false;
         seen_states.clear();
@@ -1262,7 +1428,11 @@ struct Sim {
         in_check = false;
         const uint64_t term = s.absorbed + s.escaped + s.not_reemitted;
         std::string why;
-        if (s.active_tasks == 0 && s.active_buffers == 0)
+        if (s.active_tasks == 0 && s.active_buffers == 0 && s.cont_packets > 0)
+          why = fmt("%llu packets wait in %zu continuous source buffer(s) but "
+                    "no task exists that would flush them; ",
+                    (unsigned long long)s.cont_packets, s.cont_nonempty);
+        else if (s.active_tasks == 0 && s.active_buffers == 0)
           why = s.done == _number_of_photons
                     ? "" 
                     : fmt("nothing is left to do, but num_photon_done %llu can "
@@ -1540,6 +1710,24 @@ VCase gen_case() {
   return c;
 }
 
+// the same cases + an isotropic external source, alone or mixed with the point
+// sources (the packets are split as the simulation does it)
+VCase gen_case_continuous() {
+  VCase c = gen_case();
+  c.I("cont_mode", vr::weighted({0, 5, 5}));
+  c.D("lum_ratio", vr::pick(std::vector< double >{0.25, 1., 3.}));
+  // the number of continuous source tasks decides whether the flush decision
+  // is taken by one task or contended: make 2-5 tasks frequent
+  if (vr::coin(0.5)) {
+    static const std::vector< int64_t > np = {201, 399, 400, 401, 402, 600,
+                                              799, 800, 801, 1000, 1200};
+    for (auto &f : c.ii)
+      if (f.first == "nphot")
+        f.second[0] = vr::pick(np);
+  }
+  return c;
+}
+
 // =================================================================== oracle
 VResult o_loop(const VCase &c) {
   CaseScope scope(c);
@@ -1561,6 +1749,36 @@ VResult o_loop(const VCase &c) {
                         : ch.size();
       for (size_t k = 0; k < total; ++k)
         choices.push_back((int)ch[k % ch.size()]);
+    }
+  }
+  // independent pre-check for the external source: every position the real
+  // source hands out must lie inside the half-open box, i.e. map to an
+  // existing subgrid (otherwise the source task writes outside
+  // continuous_buffers and the heap is corrupted before any invariant can be
+  // evaluated)
+  if (c.has_i("cont_mode") && c.i("cont_mode") != 0) {
+    Box<> box(CoordinateVector<>(c.d("anchor", 0), c.d("anchor", 1),
+                                 c.d("anchor", 2)),
+              CoordinateVector<>(c.d("side", 0), c.d("side", 1), c.d("side", 2)));
+    IsotropicContinuousPhotonSource source(box);
+    RandomGenerator rg((int_fast32_t)c.i("seed") + 1000);
+    for (int k = 0; k < 5000; ++k) {
+      const auto pd = source.get_random_incoming_direction(rg);
+      for (int a = 0; a < 3; ++a) {
+        const double sub = c.d("side", a) / (double)c.i("ns", a);
+        const double idx = std::floor((pd.first[a] - c.d("anchor", a)) / sub);
+        if (!(idx >= 0. && idx < (double)c.i("ns", a))) {
+          r.label("external-source-packet-outside-the-box");
+          r.fail(fmt("IsotropicContinuousPhotonSource created a packet at "
+                     "%.17g %.17g %.17g: coordinate %d is outside the "
+                     "half-open box [%.17g, %.17g) (subgrid index %g of %d); "
+                     "the continuous source task would write outside its "
+                     "buffers", pd.first[0], pd.first[1], pd.first[2], a,
+                     c.d("anchor", a), c.d("anchor", a) + c.d("side", a), idx,
+                     (int)c.i("ns", a)));
+          return r;
+        }
+      }
     }
   }
   Sim S;
@@ -1601,10 +1819,23 @@ VResult o_loop(const VCase &c) {
     onb = onb || k == 1;
     near = near || k >= 2;
   }
-  if (onb)
+  if (onb && S.cont_mode != 1)
     r.label("source-on-boundary");
-  if (near)
+  if (near && S.cont_mode != 1)
     r.label("source-within-2ulp-of-boundary");
+  if (S.cont_mode == 1)
+    r.label("continuous-source-only");
+  if (S.cont_mode == 2)
+    r.label("discrete+continuous-sources");
+  if (S.cont_mode && (S._number_of_photons - S.n_injected) % 2)
+    r.label("odd-packet-count");
+  if (S.cont_mode) {
+    const uint64_t per_iter = S.n_cont_tasks / (uint64_t)std::max(1, S.niter);
+    r.label(per_iter >= 2 ? "continuous-source-tasks>=2"
+                          : "continuous-source-tasks=1");
+    if (per_iter > (uint64_t)S.nth)
+      r.label("continuous-source-tasks>copies(serialised-by-copy-lock)");
+  }
   if (S.niter > 1)
     r.label("second-iteration");
   if (c.i("ultra"))
@@ -1667,6 +1898,24 @@ int main(int argc, char **argv) {
         {"copies", 0.2},
         {"periodic-wrap", 0.1},
         {"source-on-boundary", 0.3},
+        {"second-iteration", 0.15},
+        {"quiescent-points-checked", 0.5}}});
+  props.push_back(
+      {"photon_loop_continuous", 1500, gen_case_continuous, o_loop,
+       "the cases of photon_loop + an IsotropicContinuousPhotonSource, alone "
+       "or mixed with the point sources (packets split exactly as "
+       "TaskBasedIonizationSimulation does: discrete = N>>1, continuous = N - "
+       "discrete), real SourceContinuousPhotonTaskContext and "
+       "FlushContinuousPhotonBuffersTaskContext, one source copy per logical "
+       "thread; packet counts that give 2-6 continuous source tasks frequent. "
+       "Additional invariants: every continuous source buffer is empty at the "
+       "end of the iteration and exactly one flush task per source copy has "
+       "run. Non-trivial as photon_loop",
+       {{"continuous-source-only", 0.2},
+        {"discrete+continuous-sources", 0.2},
+        {"continuous-source-tasks>=2", 0.3},
+        {"odd-packet-count", 0.15},
+        {"premature-launch-happened", 0.3},
         {"second-iteration", 0.15},
         {"quiescent-points-checked", 0.5}}});
   return vr::vmain(argc, argv, "C01", props);
